@@ -285,6 +285,7 @@ class CasXmiDeserializer:
                         fs[feature_name] = feature_structures[target_id]
 
         cas = Cas(typesystem=typesystem, lenient=lenient)
+        converted_ids = set()
         for sofa in sofas.values():
             if sofa.sofaID == "_InitialView":
                 view = cas.get_view("_InitialView")
@@ -318,8 +319,17 @@ class CasXmiDeserializer:
                 if typesystem.is_instance_of(fs.type.name, TYPE_NAME_ANNOTATION):
                     fs.begin = sofa._offset_converter.external_to_python(fs.begin)
                     fs.end = sofa._offset_converter.external_to_python(fs.end)
+                    converted_ids.add(member_id)
 
                 view.add(fs, keep_id=True)
+
+        # Annotations that are not indexed in any view but only referenced need their offsets mapped as well
+        for xmi_id, fs in feature_structures.items():
+            if xmi_id in converted_ids or not typesystem.is_instance_of(fs.type.name, TYPE_NAME_ANNOTATION):
+                continue
+            if isinstance(fs.sofa, Sofa):
+                fs.begin = fs.sofa._offset_converter.external_to_python(fs.begin)
+                fs.end = fs.sofa._offset_converter.external_to_python(fs.end)
 
         cas._xmi_id_generator = IdGenerator(self._max_xmi_id + 1)
         cas._sofa_num_generator = IdGenerator(self._max_sofa_num + 1)
